@@ -9,5 +9,5 @@ CONSTANTS
   MaxSteps = @STEPS@
 INIT Init
 NEXT Next
-INVARIANTS OutcomeOK InWindowOK ReplenishOK OutWindowOK ViewOK StartedOK NoPanic PendOK InflowOK
+INVARIANTS OutcomeOK InWindowOK ReplenishOK OutWindowOK ViewOK StartedOK IdsOK NoPanic PendOK InflowOK
 CHECK_DEADLOCK FALSE
